@@ -2,10 +2,59 @@
 Used in-process by harness/c06.py (shared objects, history order) and as a fresh interpreter
 (`python -m harness.c06_worker < ops.json`, other PYTHONHASHSEED, fresh objects, other order)."""
 import json
+import os
 import random
 import sys
 
 import numpy as np
+
+# ---- process-global generators (`random`, `numpy.random`) --------------------------------------------------
+# Only these components are random by documented design; for them the global `random` state is pinned so that the
+# documented coin toss is the same everywhere.  For every other component the global generators are put in a
+# DIFFERENT state before each operation (different per process / fork / call), so that a hidden use of them
+# shows up as a differing result; whether an operation consumed them is reported as well.
+GSALT = int(os.environ.get('C06_GSALT', '0'))
+_GCOUNT = [0]
+
+
+def documented_random(dec, em):
+    """PlanarYDecoder (coin toss between exactly tied cosets), decoders constructed with stp (skip-truncate masks),
+    FileErrorModel (cursor)."""
+    return (type(dec).__name__ == 'PlanarYDecoder' or bool(getattr(dec, '_stp', None))
+            or type(em).__name__ == 'FileErrorModel')
+
+
+def set_salt(salt):
+    global GSALT
+    GSALT = int(salt)
+    _GCOUNT[0] = 0
+
+
+def ambient(op, dec, em):
+    """-> fingerprint of the global generators after setting them (None when pinned for a documented component)"""
+    if documented_random(dec, em):
+        random.seed(20260930)
+        return None
+    g = op.get('gseed')
+    if g is None:
+        _GCOUNT[0] += 1
+        g = (GSALT * 1000003 + _GCOUNT[0] * 7919 + 17) % (2 ** 32)
+    random.seed(g)
+    np.random.seed(g)
+    return rng_fingerprint()
+
+
+def rng_fingerprint():
+    s = np.random.get_state()
+    return (random.getstate(), s[1].tobytes(), s[2])
+
+
+def consumed(fp):
+    """which global generators were advanced since fingerprint fp"""
+    if fp is None:
+        return []
+    now = rng_fingerprint()
+    return ([] if now[0] == fp[0] else ['random']) + ([] if now[1:] == fp[1:] else ['numpy.random'])
 
 
 def namespace():
@@ -36,8 +85,18 @@ def execute(op, get):
     """get(expr) -> object (fresh or shared, the caller decides)"""
     from qecsim import app
     from qecsim import paulitools as pt
-    random.seed(20260930)      # the Y decoder's documented coin toss: same toss everywhere
     code, dec, em = get(op['code']), get(op['dec']), get(op['em'])
+    fp = ambient(op, dec, em)
+    r = _execute(op, code, dec, em)
+    used = consumed(fp)
+    if used:
+        r['grng'] = used
+    return r
+
+
+def _execute(op, code, dec, em):
+    from qecsim import app
+    from qecsim import paulitools as pt
     if op['op'] == 'decode':
         error = bits(op['error'])
         syndrome = pt.bsp(error, code.stabilizers.T)
